@@ -11,6 +11,7 @@ use std::collections::BTreeMap;
 pub mod stream;
 pub mod acks;
 pub mod durability;
+pub mod cache;
 
 #[derive(Clone, Debug, Serialize, Deserialize, PartialEq)]
 pub struct Violation {
@@ -57,6 +58,7 @@ pub fn all() -> Vec<ScenarioDef> {
     v.extend(stream::defs());
     v.extend(acks::defs());
     v.extend(durability::defs());
+    v.extend(cache::defs());
     v
 }
 
